@@ -21,7 +21,7 @@ theorem skelGo_selGo (st : SelSt) (ts : List Tok) :
     skelGo st.inAttr (selGo st ts) = skelGo st.inAttr ts := by
   fun_induction selGo st ts
   all_goals try (simp_all [skelGo, Tok.tt, Tok.data, Verif.Model.CssGrammar.wsTok]; done)
-  rename_i st t r pc ps hA hI isPrefix ih
+  rename_i st t r pc ps pm hA hI isPrefix ih
   have hA' : st.inAttr = false := by simpa using hA
   have hI' : t.tt = .ident := by simpa using hI
   simp only [hA'] at ih ⊢
@@ -36,6 +36,60 @@ theorem skelGo_selGo (st : SelSt) (ts : List Tok) :
 
 theorem skel_selToks (ts : List Tok) : skel (selToks ts) = skel ts :=
   skelGo_selGo SelSt.init ts
+
+theorem tt_beq_decide (a b : TT) : (a == b) = decide (a = b) := by
+  cases h : decide (a = b) <;> simp_all
+
+/-- outside `[…]` every token written has the kind of the token read (identifiers are only respelled) -/
+theorem kindsOutside_selGo (st : SelSt) (ts : List Tok) :
+    kindsOutside st.inAttr (selGo st ts) = kindsOutside st.inAttr ts := by
+  fun_induction selGo st ts
+  case case1 => rfl
+  case case2 st t r pc ps pm hA hI isPrefix ih =>
+    have hA' : st.inAttr = false := by simpa using hA
+    have hI' : t.tt = .ident := by simpa using hI
+    simp only [hA'] at ih ⊢
+    rcases t with ⟨tt, data, args⟩
+    simp only [Tok.tt] at hI'
+    subst hI'
+    simp only [kindsOutside, kindOf, Tok.tt, show (TT.ident == TT.leftBracket) = false from rfl, ih]
+    simp
+  case case3 st t r pc ps pm hA hI hD ih =>
+    rcases t with ⟨tt, data, args⟩
+    cases tt <;> simp_all [kindsOutside, kindOf, Tok.tt, Tok.data, Verif.Model.CssGrammar.wsTok, tt_beq_decide]
+  case case4 st t r pc ps pm hA hI hD hB ih =>
+    rcases t with ⟨tt, data, args⟩
+    cases tt <;> simp_all [kindsOutside, kindOf, Tok.tt, Tok.data, Verif.Model.CssGrammar.wsTok, tt_beq_decide]
+  case case5 st t r pc ps pm hA hI hD hB hF keep ih =>
+    rcases t with ⟨tt, data, args⟩
+    cases tt <;> simp_all [kindsOutside, kindOf, Tok.tt, Tok.data, Verif.Model.CssGrammar.wsTok, tt_beq_decide]
+  case case6 st t r pc ps pm hA hI hD hB hF hP ih =>
+    rcases t with ⟨tt, data, args⟩
+    cases tt <;> simp_all [kindsOutside, kindOf, Tok.tt, Tok.data, Verif.Model.CssGrammar.wsTok, tt_beq_decide]
+  case case7 st t r pc ps pm hA hI hD hB hF hP hQ ih =>
+    rcases t with ⟨tt, data, args⟩
+    cases tt <;> simp_all [kindsOutside, kindOf, Tok.tt, Tok.data, Verif.Model.CssGrammar.wsTok, tt_beq_decide]
+  case case8 st t r pc ps pm hA hI hD hB hF hP hQ ih =>
+    rcases t with ⟨tt, data, args⟩
+    cases tt <;> simp_all [kindsOutside, kindOf, Tok.tt, Tok.data, Verif.Model.CssGrammar.wsTok, tt_beq_decide]
+  case case9 st t r pc ps pm hA hU ih =>
+    rcases t with ⟨tt, data, args⟩
+    cases tt <;> simp_all [kindsOutside, kindOf, Tok.tt, Tok.data, Verif.Model.CssGrammar.wsTok, tt_beq_decide]
+  case case10 st t r pc ps pm hA hU hStr ih =>
+    rcases t with ⟨tt, data, args⟩
+    cases tt <;> simp_all [kindsOutside, kindOf, Tok.tt, Tok.data, Verif.Model.CssGrammar.wsTok, tt_beq_decide]
+  case case11 st t r pc ps pm hA hU hStr hRB ih =>
+    rcases t with ⟨tt, data, args⟩
+    cases tt <;> simp_all [kindsOutside, kindOf, Tok.tt, Tok.data, Verif.Model.CssGrammar.wsTok, tt_beq_decide]
+  case case12 st t r pc ps pm hA hU hStr hRB hFlag ih =>
+    rcases t with ⟨tt, data, args⟩
+    cases tt <;> simp_all [kindsOutside, kindOf, Tok.tt, Tok.data, Verif.Model.CssGrammar.wsTok, tt_beq_decide]
+  case case13 st t r pc ps pm hA hU hStr hRB hFlag ih =>
+    rcases t with ⟨tt, data, args⟩
+    cases tt <;> simp_all [kindsOutside, kindOf, Tok.tt, Tok.data, Verif.Model.CssGrammar.wsTok, tt_beq_decide]
+
+theorem kindsOutside_selToks (ts : List Tok) : kindsOutside false (selToks ts) = kindsOutside false ts :=
+  kindsOutside_selGo SelSt.init ts
 
 /-! ## the context stack of the specification and `keepLevel` of the code -/
 
@@ -153,7 +207,8 @@ theorem shape_cons_some {pd : Bool} {ph : Nat} {t : Tok} {r : List Tok} (h : sha
 
 /-- next state in attribute mode -/
 theorem rel_attr {st : SelSt} {stack : List Ctx} {prev : Prev} {ph : Nat} (hR : Rel st stack prev (some ph))
-    (pc ps : Bool) (ph' : Nat) : Rel { st with prevColon := pc, prevIdStr := ps } stack .none (some ph') := by
+    (pc ps pm : Bool) (ph' : Nat) :
+    Rel { st with prevColon := pc, prevIdStr := ps, prevMatcher := pm } stack .none (some ph') := by
   have hp := hR.attrPrev rfl
   have hc := hR.isClass
   have hi := hR.inAttr
@@ -167,7 +222,7 @@ theorem normGo_selGo (st : SelSt) (ts : List Tok) :
   fun_induction selGo st ts
   all_goals intro stack prev attr hR hS
   case case1 => rfl
-  case case2 st t r pc ps hA hI isPrefix ih =>
+  case case2 st t r pc ps pm hA hI isPrefix ih =>
     have hattr := attr_none hR hA
     subst hattr
     have hA' : st.inAttr = false := by simpa using hA
@@ -177,10 +232,10 @@ theorem normGo_selGo (st : SelSt) (ts : List Tok) :
     obtain ⟨s1, s2, s3⟩ := shape_cons_none hS
     simp only [Tok.tt, show (TT.ident == TT.leftBracket) = false from rfl, show (TT.ident == TT.delim) = false from rfl,
       Bool.false_and, Bool.false_eq_true, if_false] at s3
-    have hRel : Rel { st with isClass := false, prevColon := pc, prevIdStr := ps } stack .none none :=
+    have hRel : Rel { st with isClass := false, prevColon := pc, prevIdStr := ps, prevMatcher := pm } stack .none none :=
       ⟨by simp [hA'], by simp, by simp, Or.inr (by simp [pc, Tok.tt]; rfl), hR.level, hR.keep, hR.wf⟩
     have ih' := ih stack .none none hRel s3
-    have hbar : nextBar (selGo { st with isClass := false, prevColon := pc, prevIdStr := ps } r) = nextBar r :=
+    have hbar : nextBar (selGo { st with isClass := false, prevColon := pc, prevIdStr := ps, prevMatcher := pm } r) = nextBar r :=
       nextBar_selGo _ r (by simp [hA'])
     -- the model's and the specification's reading of "next token is `|`" agree on lexer-shaped tokens
     have hpre : isPrefix = nextBar r := by
@@ -213,7 +268,7 @@ theorem normGo_selGo (st : SelSt) (ts : List Tok) :
               by_cases h0 : keepOf s = 0
               · exact h0
               · simp [keepOf, h0] at hk0
-            have hRelOf : Rel { st with isClass := false, prevColon := pc, prevIdStr := ps } (Ctx.sel :: s) .none none :=
+            have hRelOf : Rel { st with isClass := false, prevColon := pc, prevIdStr := ps, prevMatcher := pm } (Ctx.sel :: s) .none none :=
               ⟨by simp [hA'], by simp, by simp, Or.inr (by simp [pc, Tok.tt]; rfl), by simpa using hR.level,
                by simp [keepOf, hks, hk], ⟨hR.wf.1, by simp [hks]⟩⟩
             have ihOf := ih (Ctx.sel :: s) .none none hRelOf s3
@@ -232,7 +287,7 @@ theorem normGo_selGo (st : SelSt) (ts : List Tok) :
     · simp [hc, hp, hpre, hb, Tok.args]
     · simp [hc, hp, hpre, hb, Tok.args]
     · simp [hc, hp, hpre, hb, Tok.args]
-  case case3 st t r pc ps hA hI hD ih =>
+  case case3 st t r pc ps pm hA hI hD ih =>
     -- `.`: the class name follows
     have hattr := attr_none hR hA
     subst hattr
@@ -248,11 +303,11 @@ theorem normGo_selGo (st : SelSt) (ts : List Tok) :
     subst hdata
     simp only [Tok.tt, Tok.data, show (TT.delim == TT.leftBracket) = false from rfl, Bool.false_eq_true, if_false,
       beq_self_eq_true, Bool.and_self] at s3
-    have hRel : Rel { st with isClass := true, prevColon := pc, prevIdStr := ps } stack .dot none :=
+    have hRel : Rel { st with isClass := true, prevColon := pc, prevIdStr := ps, prevMatcher := pm } stack .dot none :=
       ⟨by simp [hA'], by simp, by simp, Or.inr (by simp [pc, Tok.tt]; rfl), hR.level, hR.keep, hR.wf⟩
     simp only [normGo, Tok.tt, Tok.data, beq_self_eq_true, if_true]
     rw [ih stack .dot none hRel s3]
-  case case4 st t r pc ps hA hI hD hB ih =>
+  case case4 st t r pc ps pm hA hI hD hB ih =>
     have hattr := attr_none hR hA
     subst hattr
     have hA' : st.inAttr = false := by simpa using hA
@@ -265,11 +320,11 @@ theorem normGo_selGo (st : SelSt) (ts : List Tok) :
       have := hR.isClass
       simp only [Tok.tt, show (TT.leftBracket == TT.ident) = false from rfl, Bool.or_false, Bool.not_eq_true'] at s2
       rw [this]; exact s2
-    have hRel : Rel { st with inAttr := true, prevColon := pc, prevIdStr := ps } stack .none (some 0) :=
+    have hRel : Rel { st with inAttr := true, prevColon := pc, prevIdStr := ps, prevMatcher := pm } stack .none (some 0) :=
       ⟨by simp, by simp, by simp [hcl], Or.inl rfl, hR.level, hR.keep, hR.wf⟩
     simp only [normGo, Tok.tt]
     rw [ih stack .none (some 0) hRel s3]
-  case case5 st t r pc ps hA hI hD hB hF keep ih =>
+  case case5 st t r pc ps pm hA hI hD hB hF keep ih =>
     have hattr := attr_none hR hA
     subst hattr
     have hA' : st.inAttr = false := by simpa using hA
@@ -310,7 +365,7 @@ theorem normGo_selGo (st : SelSt) (ts : List Tok) :
       have hke := eq_of_beq this
       have hke' : stack.head?.getD Ctx.sel = Ctx.keep := by simpa using hke
       simp [hke']
-  case case6 st t r pc ps hA hI hD hB hF hP ih =>
+  case case6 st t r pc ps pm hA hI hD hB hF hP ih =>
     have hattr := attr_none hR hA
     subst hattr
     have hA' : st.inAttr = false := by simpa using hA
@@ -339,7 +394,7 @@ theorem normGo_selGo (st : SelSt) (ts : List Tok) :
       intro hk0
       have : (stack.headD Ctx.sel == Ctx.keep) = true := by rw [hh]; simp [hk0]
       exact eq_of_beq this
-  case case7 st t r pc ps hA hI hD hB hF hP hQ ih =>
+  case case7 st t r pc ps pm hA hI hD hB hF hP hQ ih =>
     have hattr := attr_none hR hA
     subst hattr
     have hA' : st.inAttr = false := by simpa using hA
@@ -372,7 +427,7 @@ theorem normGo_selGo (st : SelSt) (ts : List Tok) :
     · cases stack with
       | nil => simp [W]
       | cons c s => exact hR.wf.1
-  case case8 st t r pc ps hA hI hD hB hF hP hQ ih =>
+  case case8 st t r pc ps pm hA hI hD hB hF hP hQ ih =>
     have hattr := attr_none hR hA
     subst hattr
     have hA' : st.inAttr = false := by simpa using hA
@@ -401,13 +456,13 @@ theorem normGo_selGo (st : SelSt) (ts : List Tok) :
         · simp_all
         · rename_i hnc; simp [hnc]
     · split <;> exact s3
-  case case9 st t r pc ps hA hU ih =>
+  case case9 st t r pc ps pm hA hU ih =>
     -- a string that is written without its quotes
     obtain ⟨ph, hattr, hprev⟩ := attr_some hR hA
     subst hattr hprev
     rcases t with ⟨tt, data, args⟩
     simp only [Tok.tt, Tok.data, Bool.and_eq_true, beq_iff_eq] at hU
-    obtain ⟨⟨⟨htt, _⟩, _⟩, _⟩ := hU
+    obtain ⟨⟨⟨⟨htt, _⟩, _⟩, _⟩, _⟩ := hU
     subst htt
     obtain ⟨p1, p2⟩ := shape_cons_some hS rfl
     have hph : ph = 1 := by simpa [Tok.tt] using p1
@@ -420,8 +475,8 @@ theorem normGo_selGo (st : SelSt) (ts : List Tok) :
     simp only [Tok.data]
     rw [e1, e2]
     rw [e2] at p2
-    exact congrArg _ (ih stack .none (some 2) (rel_attr hR _ _ 2) p2)
-  case case10 st t r pc ps hA hU hStr ih =>
+    exact congrArg _ (ih stack .none (some 2) (rel_attr hR _ _ _ 2) p2)
+  case case10 st t r pc ps pm hA hU hStr ih =>
     obtain ⟨ph, hattr, hprev⟩ := attr_some hR hA
     subst hattr hprev
     have hb : (t.tt == TT.rightBracket) = false := by
@@ -429,8 +484,8 @@ theorem normGo_selGo (st : SelSt) (ts : List Tok) :
       rw [hStr.1]; rfl
     obtain ⟨p1, p2⟩ := shape_cons_some hS hb
     rw [normGo_attr_step _ _ _ _ _ _ hb, normGo_attr_step _ _ _ _ _ _ hb]
-    exact congrArg _ (ih stack .none _ (rel_attr hR _ _ _) p2)
-  case case11 st t r pc ps hA hU hStr hRB ih =>
+    exact congrArg _ (ih stack .none _ (rel_attr hR _ _ _ _) p2)
+  case case11 st t r pc ps pm hA hU hStr hRB ih =>
     obtain ⟨ph, hattr, hprev⟩ := attr_some hR hA
     subst hattr hprev
     have hb : t.tt = TT.rightBracket := by simpa using hRB
@@ -440,7 +495,7 @@ theorem normGo_selGo (st : SelSt) (ts : List Tok) :
     simp only [normGo, hb, beq_self_eq_true, if_true]
     refine congrArg _ (ih stack .none none ?_ hS')
     exact ⟨by simp, by simp, by simpa using hc, Or.inr (by simp [pc, hb]; rfl), hR.level, hR.keep, hR.wf⟩
-  case case12 st t r pc ps hA hU hStr hRB hFlag ih =>
+  case case12 st t r pc ps pm hA hU hStr hRB hFlag ih =>
     -- an identifier behind the value: a white-space token is written in front of it
     obtain ⟨ph, hattr, hprev⟩ := attr_some hR hA
     subst hattr hprev
@@ -451,14 +506,14 @@ theorem normGo_selGo (st : SelSt) (ts : List Tok) :
     rw [normGo_attr_step _ _ _ _ Verif.Model.CssGrammar.wsTok _ rfl, hws]
     simp only [Option.toList, List.nil_append]
     rw [normGo_attr_step _ _ _ _ _ _ hb, normGo_attr_step _ _ _ _ _ _ hb]
-    exact congrArg _ (ih stack .none _ (rel_attr hR _ _ _) p2)
-  case case13 st t r pc ps hA hU hStr hRB hFlag ih =>
+    exact congrArg _ (ih stack .none _ (rel_attr hR _ _ _ _) p2)
+  case case13 st t r pc ps pm hA hU hStr hRB hFlag ih =>
     obtain ⟨ph, hattr, hprev⟩ := attr_some hR hA
     subst hattr hprev
     have hb : (t.tt == TT.rightBracket) = false := by simpa using hRB
     obtain ⟨p1, p2⟩ := shape_cons_some hS hb
     rw [normGo_attr_step _ _ _ _ _ _ hb, normGo_attr_step _ _ _ _ _ _ hb]
-    exact congrArg _ (ih stack .none _ (rel_attr hR _ _ _) p2)
+    exact congrArg _ (ih stack .none _ (rel_attr hR _ _ _ _) p2)
 
 /-- **the tokens written have the normal form of the tokens read** (HTML documents) -/
 theorem selNorm_selToks (ts : List Tok) (h : selShape ts = true) :
